@@ -107,30 +107,3 @@ Proof.
   - exfalso. vm_compute in E0. injection E0 as <-. vm_compute in E1. injection E1 as <-.
     vm_compute in E2. discriminate.
 Qed.
-
-(* ---- the f64 share on small operands (finite certificate, vm_compute) ----
-   For every headroom d in [-512, 512] and every thread count 1..4 the IEEE computation
-   `from_f64(d as f64 / tc as f64)` is the exact quotient truncated toward zero, so on such
-   operands [headroom_checked] never rejects and [headroom_f64] itself satisfies [hr_ok].
-   The general statement (|d| < 2^53) needs an ulp-level argument including the tie case and
-   is left checked per run by [headroom_checked]. *)
-Definition hr_agree (d : Z) (tc : nat) : bool :=
-  match headroom_f64 d tc with Some a => a =? Z.quot d (Z.of_nat tc) | None => false end.
-Definition hr_range_ok (N T : nat) : bool :=
-  forallb (fun tc => forallb (fun i => hr_agree (Z.of_nat i - Z.of_nat N) tc) (seq 0 (2 * N + 1))) (seq 1 T).
-
-Lemma C05_f64_share_exact_small_w : hr_range_ok 512 4 = true.
-Proof. vm_compute. reflexivity. Qed.
-
-Lemma hr_range_ok_spec N T d tc : hr_range_ok N T = true ->
-  - Z.of_nat N <= d <= Z.of_nat N -> (1 <= tc <= T)%nat ->
-  headroom_f64 d tc = Some (Z.quot d (Z.of_nat tc)).
-Proof.
-  unfold hr_range_ok. rewrite forallb_forall. intros H Hd Htc.
-  assert (Hin : In tc (seq 1 T)) by (apply in_seq; lia).
-  specialize (H tc Hin). rewrite forallb_forall in H.
-  assert (Hi : In (Z.to_nat (d + Z.of_nat N)) (seq 0 (2 * N + 1))) by (apply in_seq; lia).
-  specialize (H _ Hi). replace (Z.of_nat (Z.to_nat (d + Z.of_nat N)) - Z.of_nat N) with d in H by lia.
-  unfold hr_agree in H. destruct (headroom_f64 d tc) as [a|]; [|discriminate].
-  apply Z.eqb_eq in H. now subst.
-Qed.
